@@ -201,6 +201,32 @@ def implied_vol(ctx: Ctx) -> None:
                                            "volatility": vols[i].item(), "implied": iv[i].item()})
 
 
+def implied_vol_mixed_batches(ctx: Ctx) -> None:
+    """One call with elements of DIFFERENT moneyness (at the money next to in the money, several maturities): every element is
+    recovered to the requested precision - each batch is chosen so that all of its elements are monotone in the same direction."""
+    from pfhedge.nn import BSEuropeanBinaryOption, BSEuropeanOption
+    dtype = torch.float64
+    cases = [("BSEuropeanBinaryOption call, at and in the money", BSEuropeanBinaryOption(), [0.0, 0.1, 0.3, 0.0, 0.05], [0.25, 0.25, 1.0, 2.0, 0.5]),
+             ("BSEuropeanBinaryOption put, at and in the money", BSEuropeanBinaryOption(call=False), [0.0, 0.1, 0.3, 0.0, 0.05], [0.25, 0.25, 1.0, 2.0, 0.5]),
+             ("BSEuropeanOption call, mixed moneyness", BSEuropeanOption(), [-0.3, 0.0, 0.2, 0.0, -0.05], [0.25, 0.25, 1.0, 2.0, 0.5]),
+             ("BSEuropeanOption put, strike 1.1", BSEuropeanOption(call=False, strike=1.1), [-0.3, 0.0, 0.2, 0.0, -0.05], [0.25, 0.25, 1.0, 2.0, 0.5])]
+    vols = torch.tensor([0.15, 0.3, 0.45, 0.6, 0.8], dtype=dtype)
+    for label, m, lms, ts in cases:
+        lm, tm = torch.tensor(lms, dtype=dtype), torch.tensor(ts, dtype=dtype)
+        price = m.price(log_moneyness=lm, time_to_maturity=tm, volatility=vols)
+        for precision in (1e-6, 1e-9):
+            try:
+                iv = m.implied_volatility(log_moneyness=lm, time_to_maturity=tm, price=price, precision=precision)
+            except Exception as e:
+                ctx.violation("iv:mixed-batch:raises", f"implied_volatility raised {type(e).__name__} on a batch of mixed moneyness ({label})", {"error": repr(e)[:200]})
+                continue
+            ctx.count(n=len(lms))
+            err = (iv - vols).abs()
+            if iv.shape != vols.shape or not bool((err <= precision * (1 + 1e-9)).all()):
+                ctx.violation("iv:mixed-batch", f"implied volatility of a batch of mixed moneyness does not reproduce the volatilities ({label})",
+                              {"log_moneyness": lms, "time_to_maturity": ts, "precision": precision, "volatility": vols.tolist(), "implied": iv.tolist()})
+
+
 def check(ctx: Ctx) -> None:
     from pfhedge._utils.bisect import bisect
     with ThreadPoolExecutor(max_workers=4) as ex:
@@ -233,6 +259,7 @@ def check(ctx: Ctx) -> None:
     ctx.selftest("a behaviour whose result is the lower end of the final bracket is rejected", len(probe.violations) == 1)
     continuous_cases(ctx, bisect)
     implied_vol(ctx)
+    implied_vol_mixed_batches(ctx)
     ctx.traces_validated = n
     ctx.exhaustive = True
     ctx.rule = ("every terminal behaviour of Bisect.tla (all monotone tables on 9 grid points with values 0..3, all targets, precisions 0/1/2/4 units, "
